@@ -43,6 +43,9 @@ SITES = {
     "talattr_dq": '<r><t tal:attributes="a v" b="2"/></r>',
     "talattr_sq": "<r><t a='s' tal:attributes=\"a v\" b='2'/></r>",
     "dictattr": '<r><t tal:attributes="d" b="2"/></r>',
+    # attributes written without delimiters that become dynamic are written with double quotes
+    "talattr_unq": '<r><t a=s tal:attributes="a v" b="2"/></r>',
+    "unq_interp": '<r><t a=x${v}y b="2"/></r>',
     "comment": '<r><!--x${v}y--></r>',
     "stringexpr": '<r><t tal:content="string:x${v}y">d</t></r>',
     "nameblock": '<r><p i18n:translate="">x <b i18n:name="n" tal:content="v">d</b> y</p></r>',
@@ -219,7 +222,7 @@ def _render_site(args):
             return t(d={"a": value})
         return t(v=value)
     base = render("a")
-    k = base.find("a", base.find("x") + 1 if "x" in base and site not in ("content", "talattr_dq", "talattr_sq", "dictattr", "structure_kw", "nameblock", "i18nattr_dq") else 0)
+    k = base.find("a", base.find("x") + 1 if "x" in base and site not in ("content", "talattr_dq", "talattr_sq", "dictattr", "structure_kw", "nameblock", "i18nattr_dq", "talattr_unq", "talattr_bare") else 0)
     # locate the harmless value: the rendering with "a" and with "aa" differ exactly there
     base2 = render("aa")
     k = next(i for i in range(len(base)) if base[i:] != base2[i + 1:] and base[:i] == base2[:i]) if base != base2 else -1
@@ -372,6 +375,7 @@ def run(ctx):
         for text, payload in viol[:2]:
             if len(ctx.violations) < 8:
                 ctx.violation(text, dict(kind="escape-composite", **payload))
+    loader_format_part(ctx)
     B = 40000
     batches = [traces[i:i + B] for i in range(0, len(traces), B)]
     with multiprocessing.get_context("fork").Pool(min(8, max(1, len(batches)))) as pool:
@@ -416,3 +420,33 @@ def run(ctx):
                 "__html__ object at its opt-out site}; non-trivial = the string contains a markup character" % (maxlen, len(SITES)))
     ctx.assumptions += ["unquoted attribute values and hostile attribute-dictionary KEYS are outside the statement",
                         "the character classes stand for the six concrete characters themselves"]
+
+
+def loader_format_part(ctx):
+    """the opt-out of text mode belongs to the template that was asked for as text: the same file asked for as a
+    markup template (before or after) escapes"""
+    import shutil
+    import tempfile
+    sys.path.insert(0, REPO_SRC)
+    from chameleon.zpt.loader import TemplateLoader
+    d = tempfile.mkdtemp(prefix="c02l_")
+    try:
+        open(os.path.join(d, "t.pt"), "w").write('<r a="${v}">${v}</r>')
+        hostile = "<b>&\"'"
+        for order in (("text", "xml"), ("xml", "text", "xml"), ("text", None)):
+            L = TemplateLoader([d])
+            for f in order:
+                t = L.load("t.pt", f) if f else L.load("t.pt")
+                got = t(v=hostile)
+                ctx.replays += 1
+                if f == "text":
+                    want = ('<r a="%s">%s</r>' % (hostile, hostile)).encode("utf-8")
+                    ok = got == want
+                else:
+                    ok = isinstance(got, str) and re.fullmatch(r'<r a="[^"<>]*">[^<>]*</r>', got) is not None
+                if not ok:
+                    ctx.violation("one file loaded in the formats %s through one loader: the %s template renders %r for the value %r" % (
+                        list(order), f or "default (markup)", got, hostile), dict(kind="escape-loader-format"))
+                    return
+    finally:
+        shutil.rmtree(d, ignore_errors=True)
